@@ -76,6 +76,8 @@ class HsWorld:
             return None
         if "garbage" in pair:
             return b"\x13" * 16
+        if "plain" in pair:
+            return None            # no seal: the datagram ends in a CRC, as the hellos do
         if "c" in pair and "a" not in pair:
             other = (pair - {"c"}).pop()
             return self.crypto.ecdh_client(self.cl.conn.session_key, self.pub(other), self.salt(term["salt"]))
